@@ -33,7 +33,9 @@ CHECK = dict(
          'a fixed family of 14 degenerate / bushy shapes (left spine, right spine, zig-zag starting left / right, one left step then a right spine and its mirror image, two spines under one root leaning inwards / outwards, left comb, '
          'right comb, zig-zag comb, heap-shaped full tree, left / right spine ending in a full tree) at every node count of a '
          'stated size list, all six operations at the root plus complete-after-j for j in {1, n/2, n-1}, six layouts, same '
-         'oracles. LIST: bintree_iterate_list against the list e0..e_len and against bintree_traverse_list on left- and '
+         'oracles; in this pass the iterators and the free functions run on a 32 KiB stack of their own with an inaccessible page '
+         'below it (the harness keeps a 1 GiB stack for the recursive traversals only), so stack use that grows with the depth of '
+         'the tree is a fault. LIST: bintree_iterate_list against the list e0..e_len and against bintree_traverse_list on left- and '
          'right-leaning spines of every length of a stated list, elements leaves or inner nodes, nodes allocated ascending or '
          'descending; is_list(NULL) is answered "no" and counted. WRAP: BINTREE_DECLARE_INLINE_WRAPPERS is instantiated once '
          '(node type with the bintree_node_t at a non-zero offset) and every wrapper is run against the plain function on two '
